@@ -413,7 +413,8 @@ fn apply_parent_ready(
         return;
     };
     let (parent_slot, parent_hash) = parent_block_id;
-    if &new_hash == parent_hash {
+    // the block hash does not cover the slot: the same content in another slot is another block
+    if new_slot == *parent_slot && &new_hash == parent_hash {
         debug!("parent is ready, continuing with same parent");
     } else {
         // the ready parent may be another block of the same slot (equivocating leader)
